@@ -196,6 +196,14 @@ Section Codec.
     | None => Ok (p, None)
     | Some p' => Ok (p', Some (scan (N.max base fsb) (base + bundle) (p_blocks p')))
     end.
+
+  (* BlocksInRange as the file source calls it (fixed bundle size; an error is None) *)
+  Definition generic_query (fsb : N) (st : store) (possible : list N) (m : str -> bool) (bundle : N)
+             (p : prov) (base : N) : prov * option (list N) :=
+    match blocks_in_range fsb st possible m p base bundle with
+    | Ok r => r
+    | Panic => (p, None)
+    end.
 End Codec.
 
 Arguments mkIdx {B}.
@@ -214,6 +222,7 @@ Arguments indexer_run {B}.
 Arguments find_index {B}.
 Arguments load_range {B}.
 Arguments blocks_in_range {B}.
+Arguments generic_query {B}.
 
 (* ------------------------------------------------------------------------------------------ *)
 (* The file source with a block index provider: sequential model.
